@@ -2,6 +2,7 @@ pub mod diffref;
 pub mod api;
 pub mod c01;
 pub mod c03;
+pub mod c04;
 
 use crate::ast::Node;
 use crate::core::*;
@@ -18,6 +19,7 @@ pub fn run(ctx: &RunCtx) -> Outcome {
         "C02" => c01::run(ctx, true),
         "C15" => c01::run_cond(ctx),
         "C03" => c03::run(ctx),
+        "C04" => c04::run(ctx),
         "C05" => api::run_c05(ctx),
         "C08" => api::run_c08(ctx),
         "C09" => api::run_c09(ctx),
@@ -37,6 +39,10 @@ pub fn replay(ctx: &RunCtx, case: &Value) -> Result<Option<Fail>, String> {
             replay_pat(ctx, &diffref::DiffRef { omit_empty_no: omit, ..c01::prop_cond() }, case)
         }
         "C03" => replay_pat(ctx, &c03::Inject, case),
+        "C04" => {
+            let named = case.get("extra").and_then(|e| e.get("named")).and_then(|b| b.as_u64()).map(|x| x as u8);
+            replay_pat(ctx, &c04::VsRegex { named }, case)
+        }
         "C05" => replay_pat(ctx, &api::Safety, case),
         "C08" => replay_pat(ctx, &api::IterModel, case),
         "C09" => replay_pat(ctx, &api::Coherence, case),
